@@ -31,8 +31,8 @@ ASSUMPTIONS = [
     'results, SUM = "+" in rank order); real MPI transport, shared-memory windows and Split_type are not exercised',
     'variances are compared with atol 1e-12*mean^2 (a constant profile has variance 0 and M2 carries rounding noise)',
 ]
-_Q = {'online': 400, 'online_exhaustive': 1, 'alias': 60, 'mp': 3}
-_T = {'online': 6000, 'online_exhaustive': 1, 'alias': 600, 'mp': 9}
+_Q = {'online': 400, 'online_exhaustive': 1, 'alias': 60, 'mp': 3, 'masked': 30}
+_T = {'online': 6000, 'online_exhaustive': 1, 'alias': 600, 'mp': 9, 'masked': 300}
 BUDGET = {
     'quick': [dict(name='main', env={'NUMBA_BOUNDSCHECK': '1'}, shards=4, cases=_Q)],
     'thorough': [dict(name='main', env={'NUMBA_BOUNDSCHECK': '1'}, shards=16, cases=_T)],
@@ -46,7 +46,7 @@ REQUIRED = dict(monitors=['online:variance-not-negative', 'alias:variance-equals
                          'alias:same-objects-two-accumulators', 'alias:one-buffer-overwritten',
                          'alias:several-accumulators-other-weights', 'values:tight-spread',
                          'weights-handed-over:as-they-are-numpy', 'weights-handed-over:plus-1e-300-numpy', 'values:agree-to-rounding',
-                         'values:zero-weight-samples-elsewhere-weighted-ones-identical', 'mp:samples-a-hair-apart', 'history:hundreds-of-samples-on-a-rank'])
+                         'values:zero-weight-samples-elsewhere-weighted-ones-identical', 'mp:samples-a-hair-apart', 'history:hundreds-of-samples-on-a-rank', 'values:masked-arrays'])
 TOL = 1e-10
 EPS = float(np.finfo(float).eps)
 _state = {}
@@ -294,6 +294,42 @@ def wl_online(ctx, rng):
     ctx.sig('online', nranks, n, wcls, bool(vec), int(split), tuple(np.bincount(np.asarray(assign, dtype=int), minlength=nranks).tolist()))
     ctx.sample({'workload': 'online', 'ranks': nranks, 'n': n, 'weights': wcls, 'vector': bool(vec),
                 'per_rank_counts': np.bincount(np.asarray(assign, dtype=int), minlength=nranks).tolist()})
+
+
+def wl_masked(ctx, rng):
+    """Samples handed over as numpy MASKED arrays (a spectrum with empty bins: NaN under a mask, the same bins in every
+    sample): the elements that are not masked have the two-pass weighted variance of their values, on every rank, for every
+    split; what is returned for the masked elements is not judged."""
+    from taurex.util.math import OnlineVariance
+    nranks = int(rng.choice([1, 2, 3, 5]))
+    n = int(rng.integers(2, 40))
+    d = int(rng.integers(3, 9))
+    w, wcls = draw_weights(rng, n)
+    w = np.asarray(w, dtype=float) + 1e-300
+    mask = np.zeros(d, dtype=bool)
+    mask[rng.choice(d, int(rng.integers(1, max(2, d // 2))), replace=False)] = True
+    vals = rng.normal(rng.uniform(-5, 5), 10 ** rng.uniform(-2, 2), (n, d))
+    vals[:, mask] = np.nan
+    assign = np.asarray(rng.integers(0, nranks, n), dtype=int) if rng.random() < 0.5 else np.arange(n) % nranks
+    objs = [OnlineVariance() for _ in range(nranks)]
+    for v, w_, r in zip(vals, w, assign):
+        objs[r].update(np.ma.masked_invalid(v.copy()), weight=w_)
+    rv = Rendezvous(nranks, ctx)
+    outs, errs = rv.run([o.parallelVariance for o in objs])
+    bad = [repr(e)[:200] for e in errs if e is not None]
+    if not ctx.check('online:every-rank-completes-the-collectives', not bad, errors=bad, nranks=nranks, values='masked'):
+        return
+    ctx.observe('values:masked-arrays')
+    mean, var = ref_var(vals[:, ~mask], w)
+    feat = dict(label='masked', nranks=nranks, n=n, counts=np.bincount(assign, minlength=nranks).tolist())
+    for r, o in enumerate(outs):
+        got = np.ma.getdata(o) if np.ndim(o) else None
+        if got is None or np.shape(got) != (d,):
+            ctx.check('online:variance-equals-two-pass', bool(np.ndim(o) == 0 and np.isnan(o)) and n < 2, rank=r, got=repr(o)[:100], **feat)
+            continue
+        ctx.close('online:variance-equals-two-pass', np.asarray(got, dtype=float)[~mask], var, TOL,
+                  atol=var_allowance(list(vals[:, ~mask]), mean, var), rank=r, values='masked', **feat)
+    ctx.sig('masked', nranks, n, d, int(mask.sum()), wcls)
 
 
 def wl_alias(ctx, rng):
@@ -656,7 +692,7 @@ def wl_mp(ctx, rng):
                 'collectives': report['ops'], 'per_rank_processed': [len([e for e in r['events'] if e[0] == 'update_model' and e[1] == 'profiles']) for r in ranks]})
 
 
-WORKLOADS = {'online': wl_online, 'online_exhaustive': wl_online_exhaustive, 'alias': wl_alias, 'mp': wl_mp}
+WORKLOADS = {'online': wl_online, 'online_exhaustive': wl_online_exhaustive, 'alias': wl_alias, 'mp': wl_mp, 'masked': wl_masked}
 
 LEVEL_TEXT = ('Exploration by runtime monitoring of simulated rank splits: (1) in-process, the real OnlineVariance objects of R '
               'ranks are fed every assignment of <=6 samples to <=3 ranks and thousands of random assignments, '
